@@ -117,10 +117,11 @@ def move_coq(m):
 
 
 def to_coq(c):
-    return "mkC (mkP %s %s %s [%s]) %s %s %s" % (
+    return "mkC (mkP %s %s %s [%s]) %s %s %s [%s]" % (
         stage_coq(c["stage"]), natlist(c.get("icaps") or []), natlist(c.get("ocaps") or []),
         "; ".join(move_coq(m) for m in c["moves"]),
-        vlib.zlist(c.get("calls") or []), b(c.get("crash")), "%d%%N" % gen_code(c.get("gen", "")))
+        vlib.zlist(c.get("calls") or []), b(c.get("crash")), "%d%%N" % gen_code(c.get("gen", "")),
+        "; ".join("%d%%N" % t for t in (c.get("call_at") or [])))
 
 
 def gen_code(g):
